@@ -47,6 +47,75 @@ def load_assumed_sources():
     return {}
 
 
+_CLASS_INDEX = {}
+
+
+def class_index(repo):
+    """class name -> (relative module path, ClassDef) for src/sedpack"""
+    import ast
+    if repo in _CLASS_INDEX:
+        return _CLASS_INDEX[repo]
+    idx = {}
+    base = os.path.join(repo, "src")
+    for dp, _, fns in os.walk(os.path.join(base, "sedpack")):
+        for fn in fns:
+            if not fn.endswith(".py"):
+                continue
+            path = os.path.join(dp, fn)
+            try:
+                tree = ast.parse(open(path, encoding="utf-8").read())
+            except Exception:  # noqa: BLE001
+                continue
+            for n in tree.body:
+                if isinstance(n, ast.ClassDef):
+                    idx.setdefault(n.name, (os.path.relpath(path, base), n))
+    _CLASS_INDEX[repo] = idx
+    return idx
+
+
+def class_shape_hash(node):
+    """hash of what the contracts ASSUME of a class statement (A-PYD): bases,
+    decorators, class-level statements (fields, defaults, model_config) and,
+    for methods, only name, decorators and signature - method bodies are
+    verified (or pinned) separately"""
+    import ast
+    import hashlib
+    parts = [ast.dump(b) for b in node.bases] + \
+        [ast.dump(k) for k in node.keywords] + \
+        [ast.dump(d) for d in node.decorator_list]
+    for st_ in node.body:
+        if isinstance(st_, (ast.FunctionDef, ast.AsyncFunctionDef)):
+            parts.append("def %s %s %s" % (
+                st_.name, [ast.dump(d) for d in st_.decorator_list],
+                ast.dump(st_.args)))
+        elif isinstance(st_, ast.Expr) and isinstance(
+                st_.value, ast.Constant) and isinstance(st_.value.value, str):
+            continue
+        else:
+            parts.append(ast.dump(st_))
+    return hashlib.sha256("|".join(parts).encode()).hexdigest()[:16]
+
+
+def classes_of(reg, fcs):
+    """names of the classes the contracts of these functions talk about"""
+    import re
+    out = set()
+    for fc in fcs:
+        if fc.cls:
+            out.add(fc.cls)
+        for shp in list(fc.params.values()) + [fc.returns or ""]:
+            out.update(re.findall(r"ref:([A-Za-z_][A-Za-z_0-9]*)", shp or ""))
+        for m in fc.modifies:
+            if not m.startswith("ghost:") and "." in m:
+                out.add(m.split(".")[0])
+    # one level of fields
+    for c in list(out):
+        for shp in reg.classes.get(c, {}).values():
+            if isinstance(shp, str):
+                out.update(re.findall(r"ref:([A-Za-z_][A-Za-z_0-9]*)", shp))
+    return out
+
+
 def assumed_source_hash(repo, mod, qualname):
     """hash of the function's AST without its docstring (comments and
     formatting do not matter)"""
@@ -93,6 +162,21 @@ def stage1(pid, repo, tier, plan, update=False):
                               "contract is assumed (audited, bounded), "
                               "changed since the audit: contract no longer "
                               "backed"))
+    # class statements whose shape the contracts assume (fields, defaults,
+    # validators, model configuration: A-PYD)
+    idx = class_index(repo)
+    fcs = [fc for fc in reg.funcs.values() if pid in fc.props]
+    for cname in sorted(classes_of(reg, fcs)):
+        if cname not in idx:
+            continue
+        key = "class:" + cname
+        h = class_shape_hash(idx[cname][1])
+        cur[key] = h
+        if key in base and base[key] != h and not update:
+            undecided.append((idx[cname][0] + ":" + cname,
+                              "the class statement (fields, defaults, "
+                              "validators, configuration) changed; the "
+                              "contracts assume the recorded shape (A-PYD)"))
     if update:
         base.update(cur)
         with open(os.path.join(ROOT, "baseline", "assumed_sources.json"),
